@@ -188,6 +188,13 @@ func c17Body(rc *RunCtx) {
 				put(fmt.Sprintf("%s-%s-%s.log", d.LogID, d.Oname, date))
 			}
 		}
+		// own-looking files whose eight digits are no calendar day (what happens to them is not
+		// defined; everything else must still be judged correctly in their presence)
+		for _, date := range []string{"20230229", "20211301", "20240001", "20241232", "00000000", "99999999", "20230431"} {
+			if simrt.Chance(1, 6) {
+				put(fmt.Sprintf("%s-%s-%s.log", d.LogID, d.Oname, date))
+			}
+		}
 		if simrt.Chance(1, 2) {
 			put(fmt.Sprintf("%sx-%s-%s.log", d.LogID, d.Oname, ymd(nowMs-30*day))) // look-alike foreign
 		}
